@@ -7,3 +7,5 @@ open O2P.Gate
 #print axioms exactB_iff
 #print axioms family_plain
 #print axioms cover_spec
+#print axioms cover_sound
+#print axioms cover_sound_universe
